@@ -25,6 +25,7 @@ type Prog struct {
 	tags    map[string]int
 	tagName map[int]string
 	ownCache map[string]string
+	relCache map[string]bool
 }
 
 func loadProg(repo string, patterns []string) *Prog {
